@@ -4,23 +4,23 @@
 # 2. runs the property's quick check against the patched tree and prints what it reported
 D="$1"; MODE="$2"
 PROP=$(python3 -c "import json,sys; print(json.load(open('$D/meta.json'))['property'])")
-WT=/tmp/seedcheck
+WT=/root/dev/seedcheck
 if [ ! -d $WT ]; then git -C /repo worktree add -q --detach $WT HEAD; fi
 git -C $WT checkout -q --detach $(git -C /repo rev-parse HEAD) 2>/dev/null; git -C $WT checkout -q -- . ; git -C $WT clean -fdq
 cd $WT
-/venv/bin/python "$D/demo.py" >/tmp/seed_demo0.log 2>&1; RC0=$?
+/venv/bin/python "$D/demo.py" >/root/dev/seed_demo0.log 2>&1; RC0=$?
 if ! git apply --check "$D/patch.diff" 2>/dev/null; then echo "RESULT $D prop=$PROP patch-does-not-apply"; exit 0; fi
 git apply "$D/patch.diff"
-/venv/bin/python "$D/demo.py" >/tmp/seed_demo1.log 2>&1; RC1=$?
-/verif/tools/baseline.sh $WT >/tmp/seed_bl.log 2>&1; BL=$?
+/venv/bin/python "$D/demo.py" >/root/dev/seed_demo1.log 2>&1; RC1=$?
+/verif/tools/baseline.sh $WT >/root/dev/seed_bl.log 2>&1; BL=$?
 cd /verif
 if [ "$MODE" = "--inplace" ]; then
-  git -C /repo apply "$D/patch.diff" && timeout 1500 ./vf check $PROP > /tmp/seed_vf.log 2>&1; VF=$?; git -C /repo checkout -- .
+  git -C /repo apply "$D/patch.diff" && timeout 1500 ./vf check $PROP > /root/dev/seed_vf.log 2>&1; VF=$?; git -C /repo checkout -- .
 else
-  PYVC_REPO=$WT timeout 1500 ./vf check $PROP > /tmp/seed_vf.log 2>&1; VF=$?
+  PYVC_REPO=$WT timeout 1500 ./vf check $PROP > /root/dev/seed_vf.log 2>&1; VF=$?
 fi
-NV=$(grep -c "^VIOLATION" /tmp/seed_vf.log)
+NV=$(grep -c "^VIOLATION" /root/dev/seed_vf.log)
 echo "RESULT $D prop=$PROP demo_pristine=$RC0 demo_patched=$RC1 baseline=$BL vf_exit=$VF violations=$NV"
-grep "^VIOLATION" /tmp/seed_vf.log | sed 's/replay=[^ ]* //' | cut -c1-220 | sort | uniq -c | head -5
-grep "^UNDECIDED\|^CHECKER-CRASH\|^ENGINE" /tmp/seed_vf.log | cut -c1-200 | head -3
+grep "^VIOLATION" /root/dev/seed_vf.log | sed 's/replay=[^ ]* //' | cut -c1-220 | sort | uniq -c | head -5
+grep "^UNDECIDED\|^CHECKER-CRASH\|^ENGINE" /root/dev/seed_vf.log | cut -c1-200 | head -3
 git -C $WT checkout -q -- . 
